@@ -212,6 +212,7 @@ func reflectTarget(b *tbuf, t *Target, seed, idx uint64, rc *reflCfg) {
 	}
 	bytesPass(b, t, gt, modelOK)
 	unknownSetPass(b, t)
+	rangeViewPass(b, t)
 	nilPass(b, t, gt)
 	libPass(b, t, r, en, reached, rc.libCases)
 }
@@ -991,5 +992,107 @@ func unknownSetPass(b *tbuf, t *Target) {
 			b.Violate("C08", "unknown-set-history", fmt.Sprintf("GetUnknown/SetUnknown history with a kept value (payload %x): generated %s, reference %s", []byte(v), got, want), replay)
 			b.Violate("C14", "unknown-set-history", fmt.Sprintf("GetUnknown/SetUnknown do not read and replace exactly the set: generated %s, reference %s", got, want), replay)
 		}
+	}
+}
+
+
+// secondKey: a map key different from zeroKey of the same kind.
+func secondKey(kd protoreflect.FieldDescriptor) protoreflect.MapKey {
+	switch kd.Kind() {
+	case protoreflect.StringKind:
+		return protoreflect.ValueOfString("second").MapKey()
+	case protoreflect.BoolKind:
+		return protoreflect.ValueOfBool(false).MapKey()
+	case protoreflect.Int32Kind, protoreflect.Sint32Kind, protoreflect.Sfixed32Kind:
+		return protoreflect.ValueOfInt32(-7).MapKey()
+	case protoreflect.Int64Kind, protoreflect.Sint64Kind, protoreflect.Sfixed64Kind:
+		return protoreflect.ValueOfInt64(-7).MapKey()
+	case protoreflect.Uint32Kind, protoreflect.Fixed32Kind:
+		return protoreflect.ValueOfUint32(7).MapKey()
+	}
+	return protoreflect.ValueOfUint64(7).MapKey()
+}
+
+// rangeViewPass: the List / Map values handed to the callback of Range are views of the message like those of Get
+// and Mutable: written through while the callback runs and afterwards (Append, Truncate, Set of a new key), and
+// showing later changes made through the message when kept. Same script on the generated type and on dynamicpb;
+// the traces and the final deterministic bytes must agree.
+func rangeViewPass(b *tbuf, t *Target) {
+	run := func(gen bool) (trace string) {
+		var m protoreflect.Message
+		if gen {
+			m = t.B.ToMessage(0, vval.Empty(t.S, 0)).ProtoReflect()
+		} else {
+			m = dynamicpb.NewMessage(t.Desc)
+		}
+		fds := m.Descriptor().Fields()
+		var conts []protoreflect.FieldDescriptor
+		for i := 0; i < fds.Len(); i++ {
+			fd := fds.Get(i)
+			switch {
+			case fd.IsMap():
+				mp := m.Mutable(fd).Map()
+				mp.Set(zeroKey(fd.MapKey()), mp.NewValue())
+				conts = append(conts, fd)
+			case fd.IsList():
+				l := m.Mutable(fd).List()
+				l.Append(l.NewElement())
+				l.Append(l.NewElement())
+				conts = append(conts, fd)
+			}
+		}
+		kept := map[protoreflect.FieldNumber]protoreflect.Value{}
+		m.Range(func(fd protoreflect.FieldDescriptor, v protoreflect.Value) bool {
+			if fd.IsList() {
+				// a write through the view while Range is still running
+				l := v.List()
+				l.Append(l.NewElement())
+				kept[fd.Number()] = v
+			} else if fd.IsMap() {
+				kept[fd.Number()] = v
+			}
+			return true
+		})
+		for _, fd := range conts {
+			v, ok := kept[fd.Number()]
+			if !ok {
+				trace += fmt.Sprintf("%d:not-ranged;", fd.Number())
+				continue
+			}
+			if fd.IsList() {
+				l := v.List()
+				trace += fmt.Sprintf("%d:in-callback msg=%d view=%d;", fd.Number(), m.Get(fd).List().Len(), l.Len())
+				l.Append(l.NewElement())
+				trace += fmt.Sprintf("append-via-view msg=%d view=%d;", m.Get(fd).List().Len(), l.Len())
+				ml := m.Mutable(fd).List()
+				ml.Append(ml.NewElement())
+				trace += fmt.Sprintf("append-via-msg msg=%d view=%d;", m.Get(fd).List().Len(), l.Len())
+				l.Truncate(1)
+				trace += fmt.Sprintf("truncate-via-view msg=%d view=%d;", m.Get(fd).List().Len(), l.Len())
+			} else {
+				mp := v.Map()
+				mp.Set(secondKey(fd.MapKey()), mp.NewValue())
+				trace += fmt.Sprintf("%d:set-via-view msg=%d view=%d;", fd.Number(), m.Get(fd).Map().Len(), mp.Len())
+				m.Mutable(fd).Map().Clear(zeroKey(fd.MapKey()))
+				trace += fmt.Sprintf("clear-via-msg msg=%d view=%d has=%v;", m.Get(fd).Map().Len(), mp.Len(), mp.Has(zeroKey(fd.MapKey())))
+			}
+		}
+		bs, err := proto.MarshalOptions{Deterministic: true}.Marshal(m.Interface())
+		trace += fmt.Sprintf("bytes=%x err=%v", bs, err != nil)
+		return
+	}
+	var got, want string
+	pg, pmg := guard(func() { got = run(true) })
+	pw, _ := guard(func() { want = run(false) })
+	b.Count("range_view_histories")
+	b.Case("rangeview:"+t.Full, true)
+	replay := "# range-view pass type " + t.Full + ": lists/maps populated through Mutable, views captured inside Range, then Append/Truncate/Set through the views and changes through the message"
+	if pw {
+		return
+	}
+	if pg {
+		b.Violate("C08", "range-view-history", "history over the views handed out by Range panicked: "+firstLine(pmg), replay)
+	} else if got != want {
+		b.Violate("C08", "range-view-history", fmt.Sprintf("views handed out by Range do not behave like the reference: generated %s, reference %s", clip(got, 600), clip(want, 600)), replay)
 	}
 }
